@@ -36,6 +36,11 @@ pub enum EdgeChange {
     RemoveMember(usize),
     /// insert the (isolated) node again
     InsertMember(usize),
+    /// call scc() this many times and throw the answers away (wear: call counters, stamps, caches)
+    SccCalls(usize),
+    /// rewire two edges a->b, c->d (positions in the current edge list) into a->d, c->b: every
+    /// node keeps its in- and out-degree, the components may change
+    Swap(usize, usize),
 }
 
 pub struct Scc;
@@ -237,6 +242,7 @@ fn run<F: Flavour>(sc: &SccSc, stats: &mut Stats) -> Option<Violation> {
             orders_seen.insert(F::g_iter(&g).iter().map(|(k, _)| *k).collect::<Vec<_>>());
         }
         let mut members: BTreeSet<usize> = (0..sc.n).collect();
+        let mut fresh = 900_000u64;
         if let Some(v) = check_scc::<F>(&g, sc.n, &edges, &members, 0, stats) {
             result = Some(v);
             break;
@@ -282,6 +288,38 @@ fn run<F: Flavour>(sc: &SccSc, stats: &mut Stats) -> Option<Violation> {
                         if !members.contains(u) {
                             F::g_insert(&mut g, nodes[*u].clone());
                             members.insert(*u);
+                        }
+                    }
+                    EdgeChange::SccCalls(times) => {
+                        stats.inc("probe_scc_called_hundreds_of_times_on_one_container");
+                        for _ in 0..*times {
+                            solo.set_budget(50_000_000);
+                            let _ = F::g_scc(&g);
+                        }
+                    }
+                    EdgeChange::Swap(i, j) => {
+                        if edges.len() >= 2 {
+                            let (i, j) = (*i % edges.len(), *j % edges.len());
+                            let ((a, b, _), (c, d, _)) = (edges[i], edges[j]);
+                            if i != j {
+                                let r1 = F::disconnect(&nodes[a], b);
+                                let r2 = F::disconnect(&nodes[c], d);
+                                if let (Ok(v1), Ok(v2)) = (r1, r2) {
+                                    for val in [v1.0, v2.0] {
+                                        if let Some(p) = edges.iter().position(|x| x.2 == val) {
+                                            edges.remove(p);
+                                        }
+                                    }
+                                    // (values stay unique: the reference edge list is kept by value)
+                                    fresh += 2;
+                                    let (e1, e2) = (fresh, fresh + 1);
+                                    F::connect(&nodes[a], &nodes[d], EVal::new(e1));
+                                    F::connect(&nodes[c], &nodes[b], EVal::new(e2));
+                                    edges.push((a, d, e1));
+                                    edges.push((c, b, e2));
+                                    stats.inc("probe_degree_preserving_rewiring_between_scc_calls");
+                                }
+                            }
                         }
                     }
                 }
@@ -456,6 +494,7 @@ impl Engine for Scc {
                                 cur.push((u, v, next));
                             }
                         }
+                        4 if rng.chance(1, 3) => ph.push(EdgeChange::Swap(rng.below(64), rng.below(64))),
                         4..=8 if !cur.is_empty() => {
                             let (u, v, _) = cur[rng.below(cur.len())];
                             ph.push(EdgeChange::Del(u, v));
@@ -482,7 +521,17 @@ impl Engine for Scc {
                 phases.push(ph);
             }
         }
-        let ni = if huge { 1 } else { rng.range(2, 4) };
+        // wear: a member leaves, scc() is called 256 or 65 536 times (give or take a few), the
+        // member comes back with an edge
+        let wear = !huge && n >= 2 && n <= 8 && rng.chance(1, 12_000);
+        if wear {
+            let k = rng.below(n);
+            let other = (k + 1) % n;
+            let times = *rng.pick(&[256usize, 256, 65_536]) - rng.below(5);
+            next += 2;
+            phases = vec![vec![EdgeChange::RemoveMember(k)], vec![EdgeChange::SccCalls(times)], vec![EdgeChange::InsertMember(k), EdgeChange::Add(k, other, next), EdgeChange::Add(other, k, next + 1)]];
+        }
+        let ni = if huge || wear { 1 } else { rng.range(2, 4) };
         let instances = (0..ni)
             .map(|_| {
                 let mut order: Vec<usize> = (0..n).collect();
@@ -531,6 +580,8 @@ impl Engine for Scc {
                                     EdgeChange::Isolate(u) => EdgeChange::Isolate(remap(*u)?),
                                     EdgeChange::RemoveMember(u) => EdgeChange::RemoveMember(remap(*u)?),
                                     EdgeChange::InsertMember(u) => EdgeChange::InsertMember(remap(*u)?),
+                                    EdgeChange::SccCalls(t) => EdgeChange::SccCalls(*t),
+                                    EdgeChange::Swap(i, j) => EdgeChange::Swap(*i, *j),
                                 })
                             })
                             .collect()
